@@ -31,7 +31,8 @@ THEOREMS = [
     "C08_child_priors_renormalised", "C08_renorm_is_division", "C08_expansion_records_evaluator", "C08_position_untouched",
     "C08_simulate_bounded", "C08_abs_value_le_sims", "C08_live_has_path",
     "C08_children_are_rulebook_moves", "C08_prior_at_is_table_index",
-            "C08_source_update_eq", "C08_source_update_root", "C08_source_populate_terminal", "C08_source_populate_expand", "C08_source_populate_children_legal"]
+            "C08_source_update_eq", "C08_source_update_root", "C08_source_populate_terminal", "C08_source_populate_expand", "C08_source_populate_children_legal",
+            "C08_source_analyze_tree_eq", "C08_source_descend_eq", "C08_source_analyze_tree_good", "C08_source_analyze_eq"]
 MODEL_TARGETS = ["model/Mcts.vo", "model/Harness.vo", "model/Lit.vo"]
 TRUSTED_BASE = [
     "recorders installed from the harness side: subclass of MCTS (descend/populate call the originals), "
